@@ -167,7 +167,12 @@ func hostTrustStore() string {
 
 // rootFiles writes the pool's roots into the two PEM files NewAttestor takes (the first root alone
 // in the first file, the rest - or the first again - in the second).
+var rootFilesMu sync.Mutex
+
 func rootFiles(pool []string) (string, string, error) {
+	// one writer at a time: sub-checks that run scenarios side by side would otherwise read a half-written file
+	rootFilesMu.Lock()
+	defer rootFilesMu.Unlock()
 	d := hostTrustStore()
 	if d == "" {
 		return "", "", fmt.Errorf("no temp dir")
@@ -283,6 +288,7 @@ func genCase(t *rapid.T) Case {
 		devs = []string{"rsa4096", "rsa4104", "rsa4608", "rsa6144"}
 	}
 	c.DevKey = rapid.SampledFrom(devs).Draw(t, "dev")
+	oddExp := rapid.IntRange(0, 5).Draw(t, "oddExp") == 2
 	c.Issuer = rapid.SampledFrom([]string{"rootA", "rootA", "rootA", "rootA", "rootB", "rootB", "foreign", "self"}).Draw(t, "issuer")
 	c.Validity = rapid.SampledFrom([]string{"ok", "ok", "ok", "ok", "ok", "ok", "expired", "future"}).Draw(t, "validity")
 	c.Pool = rapid.SampledFrom([][]string{{"rootA"}, {"rootA", "rootB"}, {"rootA", "rootB", "rootC"}, {"rootB"}, {"rootC", "rootA"}, {"rootC"}}).Draw(t, "pool")
@@ -306,6 +312,11 @@ func genCase(t *rapid.T) Case {
 		c.Validity = rapid.SampledFrom([]string{"expired", "future", "ok"}).Draw(t, "extValidity")
 	}
 	c.DevSig = rapid.SampledFrom([]string{"", "", "", "", "sha1", "sha1", "sha384", "sha512"}).Draw(t, "devSig")
+	if oddExp && c.Issuer != "self" && c.Issuer != "selftwin" {
+		// the same device modulus under another public exponent (3, 17, 2^31+1, 2^32+1, 2^40+1): "raised to
+		// the device key's public exponent" holds for every exponent a certificate can carry
+		c.DevKey += rapid.SampledFrom([]string{"+e1", "+e4", "+e31", "+e32", "+e32", "+e40"}).Draw(t, "devExp")
+	}
 	c.Ctor = rapid.SampledFrom([]string{"", "", "files"}).Draw(t, "ctor")
 	c.TBS = rapid.SliceOfN(rapid.Byte(), 1, 120).Draw(t, "tbs")
 	h, _ := labelHash(x509.SignatureAlgorithm(c.Algo))
@@ -656,7 +667,7 @@ func exec(c Case) (vh.Outcome, error) {
 	return out, nil
 }
 
-const rule = "the harness owns the device RSA private key and signs arbitrary encoded messages (sig = EM^d mod N): correct form 1 (with NULL) and form 2 (without) for SHA-1/256/384/512; one byte replaced at a position drawn per class (00, 01, first / last / inner padding byte, separator, identifier, digest); shortened padding with shifted tail and garbage; short EM with 0..7 padding bytes; full-length EM whose DigestInfo is another DER / BER spelling (junk inside the algorithm identifier or behind the digest with adjusted lengths, long-form or indefinite lengths, other parameters, junk behind it); identifier of another hash; digest of other data; single-bit flips of signature and body; arbitrary signature bytes; a genuine signature with one or two bytes added in front or one behind; genuine ECDSA signature under a non-RSA device key. A fifth of the cases keep the signature genuine and vary only the chain side (issuer, dates, extensions, the issuer's signature algorithm, constructor). Crossed with every signature-algorithm label 0..20, device key sizes 1024/1025/1031/1536/2047/2048 (rarely 4096/4104/4608/6144; always, with 3072, in thorough), device certificate issued by a pool root / by a CA outside the pool / self-signed / expired / not yet valid, optionally carrying a vendor extension (Yubico arc, plain or critical) or another unknown critical extension (then only 'accepted => valid chain' is judged), signed by its issuer with SHA-256 / SHA-384 / SHA-512 or SHA-1 (which the platform verifier refuses by policy: only 'accepted => valid chain' is judged), pools of 1..3 roots handed over as a pool or (a third) as the two PEM files NewAttestor reads - the CA outside the pool is installed as this process's host trust store (SSL_CERT_FILE), i.e. a publicly trusted CA that is not configured -, slot certificate dated now / inside an expired device certificate's window / in the future / not at all (the chain must be judged at the current time). Oracle: the harness recomputes sig^e mod N itself; the verdict is the same when the call is repeated after a genuine attestation under the same device key; for *WithRSA SHA labels Attest = nil iff chain valid now and EM is form 1 or form 2 of the label's digest; DSA/ECDSA labels only-if; everything else must be refused. Non-trivial: every case except 'everything valid, form 1'."
+const rule = "the harness owns the device RSA private key and signs arbitrary encoded messages (sig = EM^d mod N): correct form 1 (with NULL) and form 2 (without) for SHA-1/256/384/512; one byte replaced at a position drawn per class (00, 01, first / last / inner padding byte, separator, identifier, digest); shortened padding with shifted tail and garbage; short EM with 0..7 padding bytes; full-length EM whose DigestInfo is another DER / BER spelling (junk inside the algorithm identifier or behind the digest with adjusted lengths, long-form or indefinite lengths, other parameters, junk behind it); identifier of another hash; digest of other data; single-bit flips of signature and body; arbitrary signature bytes; a genuine signature with one or two bytes added in front or one behind; genuine ECDSA signature under a non-RSA device key. A fifth of the cases keep the signature genuine and vary only the chain side (issuer, dates, extensions, the issuer's signature algorithm, constructor). Crossed with every signature-algorithm label 0..20, device key sizes 1024/1025/1031/1536/2047/2048 (a sixth of the root-issued device certificates carry the modulus under another public exponent: 3, 17, 2^31+1, 2^32+1, 2^40+1) (rarely 4096/4104/4608/6144; always, with 3072, in thorough), device certificate issued by a pool root / by a CA outside the pool / self-signed / expired / not yet valid, optionally carrying a vendor extension (Yubico arc, plain or critical) or another unknown critical extension (then only 'accepted => valid chain' is judged), signed by its issuer with SHA-256 / SHA-384 / SHA-512 or SHA-1 (which the platform verifier refuses by policy: only 'accepted => valid chain' is judged), pools of 1..3 roots handed over as a pool or (a third) as the two PEM files NewAttestor reads - the CA outside the pool is installed as this process's host trust store (SSL_CERT_FILE), i.e. a publicly trusted CA that is not configured -, slot certificate dated now / inside an expired device certificate's window / in the future / not at all (the chain must be judged at the current time). Oracle: the harness recomputes sig^e mod N itself; the verdict is the same when the call is repeated after a genuine attestation under the same device key; for *WithRSA SHA labels Attest = nil iff chain valid now and EM is form 1 or form 2 of the label's digest; DSA/ECDSA labels only-if; everything else must be refused. Non-trivial: every case except 'everything valid, form 1'."
 
 func TestC06Attest(t *testing.T) {
 	vh.Run(t, vh.Spec[Case]{Property: "C06", Name: "TestC06Attest", Rule: rule, Gen: genCase, Exec: exec})
